@@ -437,7 +437,7 @@ func (v *Value) toGoValueInterval(rootValues []*Value, checkCircularReference bo
 	case ValueNum:
 		return *v.Num, nil
 	case ValueArray:
-		var array []interface{}
+		array := make([]interface{}, 0, len(v.Array))
 		for _, item := range v.Array {
 			val, err := item.Value.toGoValueInterval(append(rootValues, v), true)
 			if err != nil {
